@@ -1,6 +1,7 @@
 import Ach.Model.ReaderSM
 /-!
-# Lemmas about the Reader's record dispatcher: reading what the Writer emits rebuilds the tree; no `9` record, no file
+# Lemmas about the Reader's record dispatcher: reading what the Writer emits rebuilds the tree; no `9` record, no
+file; acceptance only grows with the validation outcomes
 -/
 namespace Ach.ReaderSM
 
@@ -44,49 +45,50 @@ theorem addendaInto_snoc (b : TBatch) (es : List TEntry) (e : TEntry) (sl : Slot
   rw [hb, List.getLast?_concat]
   simp [hind, attachLast_snoc, attach_append sl r e.addenda hle]
 
-/-! ## well-formed trees (what the Writer emits for a file the Reader accepts) -/
+/-! ## well-formed trees (the records of a file in the order the Writer emits them) -/
 
-/-- the addenda record `r` validates and selects slot `sl` when it follows an entry of a batch of kind `k` -/
+/-- the addenda record `r` selects slot `sl` when it follows an entry of a batch of kind `k` -/
 def SlotOK (k : BKind) (sl : Slot) : Rec → Prop
-  | .ad stdSlot iatSlot okStd okAdv okIat _ =>
+  | .ad stdSlot iatSlot _ =>
     match k with
-    | .std => stdSlot = some sl ∧ okStd = true
-    | .adv => sl = advSlot ∧ okAdv = true
-    | .iat => iatSlot = some sl ∧ okIat = true
+    | .std => stdSlot = some sl
+    | .adv => sl = advSlot
+    | .iat => iatSlot = some sl
   | _ => False
 
-/-- the entry record validates as an entry of a batch of kind `k` and carries indicator `ind` -/
-def EntryOK (k : BKind) (ind : Bool) : Rec → Prop
-  | .ed i okStd okAdv okIat _ =>
-    i = ind ∧ match k with
-      | .std => okStd = true
-      | .adv => okAdv = true
-      | .iat => okIat = true
+/-- an entry record carrying indicator `ind` -/
+def EntryOK (ind : Bool) : Rec → Prop
+  | .ed i _ => i = ind
   | _ => False
 
 structure WFEntry (k : BKind) (e : TEntry) : Prop where
-  line : EntryOK k e.ind e.line
+  line : EntryOK e.ind e.line
   ind : e.addenda ≠ [] → e.ind = true
   slots : ∀ x ∈ e.addenda, SlotOK k x.1 x.2
   order : e.addenda.Pairwise SlotLE
 
 def HeaderOK (k : BKind) : Rec → Prop
-  | .bh kind ok newOK _ => kind = k ∧ ok = true ∧ (k ≠ .iat → newOK = true)
+  | .bh kind _ => kind = k
   | _ => False
 
-def ControlOK (k : BKind) : Option Rec → Prop
-  | some (.bc ok okAdv batchOK _) => batchOK = true ∧ (if k = .adv then okAdv = true else ok = true)
+def ControlOK : Option Rec → Prop
+  | some (.bc _) => True
   | _ => False
 
 structure WFBatch (b : TBatch) : Prop where
   header : HeaderOK b.kind b.header
   entries : ∀ e ∈ b.entries, WFEntry b.kind e
-  control : ControlOK b.kind b.control
+  control : ControlOK b.control
   iatNonEmpty : b.kind = .iat → b.entries ≠ []
 
-/-! ## running the dispatcher over an emitted batch
+/-! ## running the dispatcher over an emitted batch, every validation succeeding
 
 Two focus positions: `cur` (standard / ADV batch open, no IAT batch pending) and `iat` (IAT batch open). -/
+
+theorem run_append (s : St) (a b : List (Rec × Bits)) : run s (a ++ b) = run (run s a) b := by
+  simp [run, List.foldl_append]
+
+theorem allOK_append (a b : List Rec) : allOK (a ++ b) = allOK a ++ allOK b := by simp [allOK]
 
 section cur
 variable (h c ac : Option Rec) (bs ibs : List TBatch) (errs : List Err)
@@ -94,10 +96,10 @@ variable (h c ac : Option Rec) (bs ibs : List TBatch) (errs : List Err)
 theorem run_addenda_cur (b : TBatch) (hk : b.kind ≠ .iat) (es : List TEntry) (e : TEntry) (l : List (Slot × Rec))
     (hb : b.entries = es ++ [e]) (hind : l ≠ [] → e.ind = true)
     (hs : ∀ x ∈ l, SlotOK b.kind x.1 x.2) (ho : (e.addenda ++ l).Pairwise SlotLE) :
-    run ⟨h, c, ac, bs, ibs, some b, none, errs⟩ (l.map (·.2)) =
+    run ⟨h, c, ac, bs, ibs, some b, none, errs⟩ (allOK (l.map (·.2))) =
       ⟨h, c, ac, bs, ibs, some { b with entries := es ++ [{ e with addenda := e.addenda ++ l }] }, none, errs⟩ := by
   induction l generalizing b e with
-  | nil => simp [run, ← hb]
+  | nil => simp [run, allOK, ← hb]
   | cons x xs ih =>
     obtain ⟨sl, r⟩ := x
     have hind' : e.ind = true := hind (by simp)
@@ -106,134 +108,122 @@ theorem run_addenda_cur (b : TBatch) (hk : b.kind ≠ .iat) (es : List TEntry) (
       intro y hy
       have := List.pairwise_append.1 ho
       exact this.2.2 y hy (sl, r) (by simp)
-    simp only [List.map_cons, run, List.foldl_cons]
-    have hstep : step ⟨h, c, ac, bs, ibs, some b, none, errs⟩ r =
+    simp only [List.map_cons, allOK, run, List.foldl_cons]
+    have hstep : step ⟨h, c, ac, bs, ibs, some b, none, errs⟩ r Bits.all =
         ⟨h, c, ac, bs, ibs, some { b with entries := es ++ [{ e with addenda := e.addenda ++ [(sl, r)] }] }, none, errs⟩ := by
       cases r with
-      | ad stdSlot iatSlot okStd okAdv okIat id =>
+      | ad stdSlot iatSlot id =>
         cases hkind : b.kind with
         | iat => exact absurd hkind hk
         | std =>
           simp only [SlotOK, hkind] at hsl
-          obtain ⟨h1, h2⟩ := hsl
-          subst h1; subst h2
-          simp [step, hkind, addendaInto_snoc b es e sl _ hb hind' hle]
+          subst hsl
+          simp [step, hkind, Bits.all, addendaInto_snoc b es e sl _ hb hind' hle]
         | adv =>
           simp only [SlotOK, hkind] at hsl
-          obtain ⟨h1, h2⟩ := hsl
-          subst h2
-          have := addendaInto_snoc b es e sl (.ad stdSlot iatSlot okStd true okIat id) hb hind' hle
-          rw [h1] at this
-          simp [step, hkind, this, h1]
+          have := addendaInto_snoc b es e sl (.ad stdSlot iatSlot id) hb hind' hle
+          rw [hsl] at this
+          simp [step, hkind, Bits.all, this, hsl]
       | _ => exact absurd hsl (by simp [SlotOK])
     rw [hstep]
     have := ih { b with entries := es ++ [{ e with addenda := e.addenda ++ [(sl, r)] }] } hk
       { e with addenda := e.addenda ++ [(sl, r)] } rfl (fun _ => hind')
       (fun y hy => hs y (by simp [hy])) (by simpa using ho)
-    simpa [run] using this
+    simpa [run, allOK] using this
 
 theorem run_entry_cur (b : TBatch) (hk : b.kind ≠ .iat) (e : TEntry) (he : WFEntry b.kind e) :
-    run ⟨h, c, ac, bs, ibs, some b, none, errs⟩ (emitEntry e) =
+    run ⟨h, c, ac, bs, ibs, some b, none, errs⟩ (allOK (emitEntry e)) =
       ⟨h, c, ac, bs, ibs, some { b with entries := b.entries ++ [e] }, none, errs⟩ := by
   unfold emitEntry
-  simp only [run, List.foldl_cons]
-  have hstep : step ⟨h, c, ac, bs, ibs, some b, none, errs⟩ e.line =
+  simp only [allOK, List.map_cons, run, List.foldl_cons]
+  have hstep : step ⟨h, c, ac, bs, ibs, some b, none, errs⟩ e.line Bits.all =
       ⟨h, c, ac, bs, ibs, some (addEntry b e.line e.ind), none, errs⟩ := by
     have hl := he.line
     cases hline : e.line with
-    | ed i okStd okAdv okIat id =>
+    | ed i id =>
       rw [hline] at hl
       simp only [EntryOK] at hl
-      obtain ⟨hi, hok⟩ := hl
-      subst hi
+      subst hl
       cases hkind : b.kind with
       | iat => exact absurd hkind hk
-      | std => simp only [hkind] at hok; simp [step, hkind, hok]
-      | adv => simp only [hkind] at hok; simp [step, hkind, hok]
+      | std => simp [step, hkind, Bits.all]
+      | adv => simp [step, hkind, Bits.all]
     | _ => rw [hline] at hl; exact absurd hl (by simp [EntryOK])
   rw [hstep]
   have := run_addenda_cur h c ac bs ibs errs (addEntry b e.line e.ind) (by simpa [addEntry] using hk) b.entries
     ⟨e.line, e.ind, []⟩ e.addenda (by simp [addEntry]) he.ind (by simpa [addEntry] using he.slots) (by simpa using he.order)
-  simpa [run, addEntry] using this
+  simpa [run, allOK, addEntry] using this
 
 theorem run_entries_cur (b : TBatch) (hk : b.kind ≠ .iat) (es : List TEntry) (hes : ∀ e ∈ es, WFEntry b.kind e) :
-    run ⟨h, c, ac, bs, ibs, some b, none, errs⟩ (es.flatMap emitEntry) =
+    run ⟨h, c, ac, bs, ibs, some b, none, errs⟩ (allOK (es.flatMap emitEntry)) =
       ⟨h, c, ac, bs, ibs, some { b with entries := b.entries ++ es }, none, errs⟩ := by
   induction es generalizing b with
-  | nil => simp [run]
+  | nil => simp [run, allOK]
   | cons e es ih =>
-    simp only [List.flatMap_cons, run, List.foldl_append]
-    have h1 := run_entry_cur h c ac bs ibs errs b hk e (hes e (by simp))
-    simp only [run] at h1
-    rw [h1]
+    simp only [List.flatMap_cons, allOK_append, run_append]
+    rw [run_entry_cur h c ac bs ibs errs b hk e (hes e (by simp))]
     have h2 := ih { b with entries := b.entries ++ [e] } hk (fun e' he' => hes e' (by simp [he']))
-    simpa [run] using h2
+    simpa using h2
 
 /-- a whole standard / ADV batch, read with nothing pending, is appended to `File.Batches` -/
 theorem run_batch_cur (b : TBatch) (hk : b.kind ≠ .iat) (hb : WFBatch b) :
-    run ⟨h, c, ac, bs, ibs, none, none, errs⟩ (emitBatch b) = ⟨h, c, ac, bs ++ [b], ibs, none, none, errs⟩ := by
+    run ⟨h, c, ac, bs, ibs, none, none, errs⟩ (allOK (emitBatch b)) = ⟨h, c, ac, bs ++ [b], ibs, none, none, errs⟩ := by
   obtain ⟨kind, header, entries, control⟩ := b
   have hh := hb.header
   have hc := hb.control
   simp only at hh hc hk
   cases header with
-  | bh k ok newOK id =>
+  | bh k id =>
     simp only [HeaderOK] at hh
-    obtain ⟨h1, h2, h3⟩ := hh
-    subst h1; subst h2
-    have h3' := h3 hk
-    subst h3'
+    subst hh
     cases control with
     | none => exact absurd hc (by simp [ControlOK])
     | some cr =>
       cases cr with
-      | bc ok okAdv batchOK cid =>
-        simp only [ControlOK] at hc
-        obtain ⟨hb1, hb2⟩ := hc
-        subst hb1
+      | bc cid =>
         unfold emitBatch
-        simp only [run, List.foldl_cons, List.foldl_append, Option.toList]
-        have hstep : step ⟨h, c, ac, bs, ibs, none, none, errs⟩ (.bh k true true id) =
-            ⟨h, c, ac, bs, ibs, some ⟨k, .bh k true true id, [], none⟩, none, errs⟩ := by
+        simp only [Option.toList]
+        have e1 : allOK (Rec.bh k id :: (List.flatMap emitEntry entries ++ [Rec.bc cid])) =
+            [(Rec.bh k id, Bits.all)] ++ allOK (List.flatMap emitEntry entries) ++ [(Rec.bc cid, Bits.all)] := by
+          simp [allOK]
+        rw [e1, run_append, run_append]
+        have hstep : run ⟨h, c, ac, bs, ibs, none, none, errs⟩ [(Rec.bh k id, Bits.all)] =
+            ⟨h, c, ac, bs, ibs, some ⟨k, .bh k id, [], none⟩, none, errs⟩ := by
           cases k with
           | iat => exact absurd rfl hk
-          | std => simp [step, closePending]
-          | adv => simp [step, closePending]
+          | std => simp [run, step, closePending, Bits.all]
+          | adv => simp [run, step, closePending, Bits.all]
         rw [hstep]
-        have h2 := run_entries_cur h c ac bs ibs errs ⟨k, .bh k true true id, [], none⟩ hk entries hb.entries
-        simp only [run] at h2
-        rw [h2]
+        rw [run_entries_cur h c ac bs ibs errs ⟨k, .bh k id, [], none⟩ hk entries hb.entries]
         cases k with
         | iat => exact absurd rfl hk
-        | std => simp at hb2; simp [step, hb2]
-        | adv => simp at hb2; simp [step, hb2]
+        | std => simp [run, step, Bits.all]
+        | adv => simp [run, step, Bits.all]
       | _ => exact absurd hc (by simp [ControlOK])
   | _ => exact absurd hh (by simp [HeaderOK])
 
 theorem run_batches_cur (l : List TBatch) (hl : ∀ b ∈ l, b.kind ≠ .iat ∧ WFBatch b) :
-    run ⟨h, c, ac, bs, ibs, none, none, errs⟩ (l.flatMap emitBatch) = ⟨h, c, ac, bs ++ l, ibs, none, none, errs⟩ := by
+    run ⟨h, c, ac, bs, ibs, none, none, errs⟩ (allOK (l.flatMap emitBatch)) = ⟨h, c, ac, bs ++ l, ibs, none, none, errs⟩ := by
   induction l generalizing bs with
-  | nil => simp [run]
+  | nil => simp [run, allOK]
   | cons b l ih =>
-    simp only [List.flatMap_cons, run, List.foldl_append]
-    have h1 := run_batch_cur h c ac bs ibs errs b (hl b (by simp)).1 (hl b (by simp)).2
-    simp only [run] at h1
-    rw [h1]
+    simp only [List.flatMap_cons, allOK_append, run_append]
+    rw [run_batch_cur h c ac bs ibs errs b (hl b (by simp)).1 (hl b (by simp)).2]
     have h2 := ih (bs ++ [b]) (fun b' hb' => hl b' (by simp [hb']))
-    simpa [run] using h2
+    simpa using h2
 
 end cur
 
 section iat
 variable (h c ac : Option Rec) (bs ibs : List TBatch) (errs : List Err)
 
-theorem run_addenda_iat (b : TBatch) (hk : b.kind = .iat) (es : List TEntry) (e : TEntry) (l : List (Slot × Rec))
+theorem run_addenda_iat (b : TBatch) (es : List TEntry) (e : TEntry) (l : List (Slot × Rec))
     (hb : b.entries = es ++ [e]) (hind : l ≠ [] → e.ind = true)
     (hs : ∀ x ∈ l, SlotOK .iat x.1 x.2) (ho : (e.addenda ++ l).Pairwise SlotLE) :
-    run ⟨h, c, ac, bs, ibs, none, some b, errs⟩ (l.map (·.2)) =
+    run ⟨h, c, ac, bs, ibs, none, some b, errs⟩ (allOK (l.map (·.2))) =
       ⟨h, c, ac, bs, ibs, none, some { b with entries := es ++ [{ e with addenda := e.addenda ++ l }] }, errs⟩ := by
   induction l generalizing b e with
-  | nil => simp [run, ← hb]
+  | nil => simp [run, allOK, ← hb]
   | cons x xs ih =>
     obtain ⟨sl, r⟩ := x
     have hind' : e.ind = true := hind (by simp)
@@ -242,59 +232,55 @@ theorem run_addenda_iat (b : TBatch) (hk : b.kind = .iat) (es : List TEntry) (e 
       intro y hy
       have := List.pairwise_append.1 ho
       exact this.2.2 y hy (sl, r) (by simp)
-    simp only [List.map_cons, run, List.foldl_cons]
-    have hstep : step ⟨h, c, ac, bs, ibs, none, some b, errs⟩ r =
+    simp only [List.map_cons, allOK, run, List.foldl_cons]
+    have hstep : step ⟨h, c, ac, bs, ibs, none, some b, errs⟩ r Bits.all =
         ⟨h, c, ac, bs, ibs, none, some { b with entries := es ++ [{ e with addenda := e.addenda ++ [(sl, r)] }] }, errs⟩ := by
       cases r with
-      | ad stdSlot iatSlot okStd okAdv okIat id =>
+      | ad stdSlot iatSlot id =>
         simp only [SlotOK] at hsl
-        obtain ⟨h1, h2⟩ := hsl
-        subst h1; subst h2
-        simp [step, addendaInto_snoc b es e sl _ hb hind' hle]
+        subst hsl
+        simp [step, Bits.all, addendaInto_snoc b es e sl _ hb hind' hle]
       | _ => exact absurd hsl (by simp [SlotOK])
     rw [hstep]
-    have := ih { b with entries := es ++ [{ e with addenda := e.addenda ++ [(sl, r)] }] } hk
+    have := ih { b with entries := es ++ [{ e with addenda := e.addenda ++ [(sl, r)] }] }
       { e with addenda := e.addenda ++ [(sl, r)] } rfl (fun _ => hind')
       (fun y hy => hs y (by simp [hy])) (by simpa using ho)
-    simpa [run] using this
+    simpa [run, allOK] using this
 
-theorem run_entry_iat (b : TBatch) (hk : b.kind = .iat) (e : TEntry) (he : WFEntry .iat e) :
-    run ⟨h, c, ac, bs, ibs, none, some b, errs⟩ (emitEntry e) =
+theorem run_entry_iat (b : TBatch) (e : TEntry) (he : WFEntry .iat e) :
+    run ⟨h, c, ac, bs, ibs, none, some b, errs⟩ (allOK (emitEntry e)) =
       ⟨h, c, ac, bs, ibs, none, some { b with entries := b.entries ++ [e] }, errs⟩ := by
   unfold emitEntry
-  simp only [run, List.foldl_cons]
-  have hstep : step ⟨h, c, ac, bs, ibs, none, some b, errs⟩ e.line =
+  simp only [allOK, List.map_cons, run, List.foldl_cons]
+  have hstep : step ⟨h, c, ac, bs, ibs, none, some b, errs⟩ e.line Bits.all =
       ⟨h, c, ac, bs, ibs, none, some (addEntry b e.line e.ind), errs⟩ := by
     have hl := he.line
     cases hline : e.line with
-    | ed i okStd okAdv okIat id =>
+    | ed i id =>
       rw [hline] at hl
       simp only [EntryOK] at hl
-      obtain ⟨hi, hok⟩ := hl
-      subst hi; subst hok
-      simp [step]
+      subst hl
+      simp [step, Bits.all]
     | _ => rw [hline] at hl; exact absurd hl (by simp [EntryOK])
   rw [hstep]
-  have := run_addenda_iat h c ac bs ibs errs (addEntry b e.line e.ind) (by simpa [addEntry] using hk) b.entries
+  have := run_addenda_iat h c ac bs ibs errs (addEntry b e.line e.ind) b.entries
     ⟨e.line, e.ind, []⟩ e.addenda (by simp [addEntry]) he.ind he.slots (by simpa using he.order)
-  simpa [run, addEntry] using this
+  simpa [run, allOK, addEntry] using this
 
-theorem run_entries_iat (b : TBatch) (hk : b.kind = .iat) (es : List TEntry) (hes : ∀ e ∈ es, WFEntry .iat e) :
-    run ⟨h, c, ac, bs, ibs, none, some b, errs⟩ (es.flatMap emitEntry) =
+theorem run_entries_iat (b : TBatch) (es : List TEntry) (hes : ∀ e ∈ es, WFEntry .iat e) :
+    run ⟨h, c, ac, bs, ibs, none, some b, errs⟩ (allOK (es.flatMap emitEntry)) =
       ⟨h, c, ac, bs, ibs, none, some { b with entries := b.entries ++ es }, errs⟩ := by
   induction es generalizing b with
-  | nil => simp [run]
+  | nil => simp [run, allOK]
   | cons e es ih =>
-    simp only [List.flatMap_cons, run, List.foldl_append]
-    have h1 := run_entry_iat h c ac bs ibs errs b hk e (hes e (by simp))
-    simp only [run] at h1
-    rw [h1]
-    have h2 := ih { b with entries := b.entries ++ [e] } hk (fun e' he' => hes e' (by simp [he']))
-    simpa [run] using h2
+    simp only [List.flatMap_cons, allOK_append, run_append]
+    rw [run_entry_iat h c ac bs ibs errs b e (hes e (by simp))]
+    have h2 := ih { b with entries := b.entries ++ [e] } (fun e' he' => hes e' (by simp [he']))
+    simpa using h2
 
 /-- a whole IAT batch (at least one entry), read with nothing pending, is appended to `File.IATBatches` -/
 theorem run_batch_iat (b : TBatch) (hk : b.kind = .iat) (hb : WFBatch b) :
-    run ⟨h, c, ac, bs, ibs, none, none, errs⟩ (emitBatch b) = ⟨h, c, ac, bs, ibs ++ [b], none, none, errs⟩ := by
+    run ⟨h, c, ac, bs, ibs, none, none, errs⟩ (allOK (emitBatch b)) = ⟨h, c, ac, bs, ibs ++ [b], none, none, errs⟩ := by
   obtain ⟨kind, header, entries, control⟩ := b
   have hh := hb.header
   have hc := hb.control
@@ -302,70 +288,71 @@ theorem run_batch_iat (b : TBatch) (hk : b.kind = .iat) (hb : WFBatch b) :
   simp only at hh hc hk hne
   subst hk
   cases header with
-  | bh k ok newOK id =>
+  | bh k id =>
     simp only [HeaderOK] at hh
-    obtain ⟨h1, h2, _⟩ := hh
-    subst h1; subst h2
+    subst hh
     cases control with
     | none => exact absurd hc (by simp [ControlOK])
     | some cr =>
       cases cr with
-      | bc ok okAdv batchOK cid =>
-        simp only [ControlOK] at hc
-        obtain ⟨hb1, hb2⟩ := hc
-        subst hb1
-        simp at hb2
-        subst hb2
+      | bc cid =>
         unfold emitBatch
-        simp only [run, List.foldl_cons, List.foldl_append, Option.toList]
-        have hstep : step ⟨h, c, ac, bs, ibs, none, none, errs⟩ (.bh .iat true newOK id) =
-            ⟨h, c, ac, bs, ibs, none, some ⟨.iat, .bh .iat true newOK id, [], none⟩, errs⟩ := by
-          simp [step, closePending]
+        simp only [Option.toList]
+        have e1 : allOK (Rec.bh .iat id :: (List.flatMap emitEntry entries ++ [Rec.bc cid])) =
+            [(Rec.bh .iat id, Bits.all)] ++ allOK (List.flatMap emitEntry entries) ++ [(Rec.bc cid, Bits.all)] := by
+          simp [allOK]
+        rw [e1, run_append, run_append]
+        have hstep : run ⟨h, c, ac, bs, ibs, none, none, errs⟩ [(Rec.bh .iat id, Bits.all)] =
+            ⟨h, c, ac, bs, ibs, none, some ⟨.iat, .bh .iat id, [], none⟩, errs⟩ := by
+          simp [run, step, closePending, Bits.all]
         rw [hstep]
-        have h2 := run_entries_iat h c ac bs ibs errs ⟨.iat, .bh .iat true newOK id, [], none⟩ rfl entries
-          (by simpa using hb.entries)
-        simp only [run] at h2
-        rw [h2]
+        rw [run_entries_iat h c ac bs ibs errs ⟨.iat, .bh .iat id, [], none⟩ entries (by simpa using hb.entries)]
         have hne' : entries ≠ [] := hne rfl
-        simp [step, hne']
+        simp [run, step, Bits.all, hne']
       | _ => exact absurd hc (by simp [ControlOK])
   | _ => exact absurd hh (by simp [HeaderOK])
 
 theorem run_batches_iat (l : List TBatch) (hl : ∀ b ∈ l, b.kind = .iat ∧ WFBatch b) :
-    run ⟨h, c, ac, bs, ibs, none, none, errs⟩ (l.flatMap emitBatch) = ⟨h, c, ac, bs, ibs ++ l, none, none, errs⟩ := by
+    run ⟨h, c, ac, bs, ibs, none, none, errs⟩ (allOK (l.flatMap emitBatch)) = ⟨h, c, ac, bs, ibs ++ l, none, none, errs⟩ := by
   induction l generalizing ibs with
-  | nil => simp [run]
+  | nil => simp [run, allOK]
   | cons b l ih =>
-    simp only [List.flatMap_cons, run, List.foldl_append]
-    have h1 := run_batch_iat h c ac bs ibs errs b (hl b (by simp)).1 (hl b (by simp)).2
-    simp only [run] at h1
-    rw [h1]
+    simp only [List.flatMap_cons, allOK_append, run_append]
+    rw [run_batch_iat h c ac bs ibs errs b (hl b (by simp)).1 (hl b (by simp)).2]
     have h2 := ih (ibs ++ [b]) (fun b' hb' => hl b' (by simp [hb']))
-    simpa [run] using h2
+    simpa using h2
 
 end iat
 
-theorem run_fillers (s : St) (n : Nat) : run s (List.replicate n .filler) = s := by
-  induction n with
-  | zero => rfl
-  | succ n ih => simp only [List.replicate_succ, run, List.foldl_cons, step]; simpa [run] using ih
+theorem run_cons (s : St) (r : Rec) (v : Bits) (rest : List (Rec × Bits)) :
+    run s ((r, v) :: rest) = run (step s r v) rest := rfl
+
+theorem run_fillers (s : St) : ∀ (vs : List Bits), run s ((List.replicate vs.length Rec.filler).zip vs) = s
+  | [] => by simp [run]
+  | v :: vs => by
+    simp only [List.length_cons, List.replicate_succ, List.zip_cons_cons]
+    rw [run_cons]
+    exact run_fillers s vs
 
 /-! ## whole files -/
 
 structure WFTree (t : Tree) : Prop where
-  header : ∃ id, t.header = .fh true id
+  header : ∃ id, t.header = .fh id
   batches : ∀ b ∈ t.batches, b.kind ≠ .iat ∧ WFBatch b
   iatBatches : ∀ b ∈ t.iatBatches, b.kind = .iat ∧ WFBatch b
-  control : ∃ ok okAdv id, t.control = .fc ok okAdv id
+  control : ∃ id, t.control = .fc id
+
+/-- the records before the file control, as the Writer emits them -/
+def body (t : Tree) : List Rec := t.header :: (t.batches.flatMap emitBatch ++ t.iatBatches.flatMap emitBatch)
+
+theorem emit_eq_body (t : Tree) : emit t = body t ++ [t.control] := by simp [emit, body]
 
 /-- did the file control record validate as the control the Reader parses it into -/
-def controlValid (t : Tree) : Bool :=
-  match t.control with
-  | .fc ok okAdv _ => if isADV t.batches then okAdv else ok
-  | _ => false
+def controlValid (t : Tree) (vc : Bits) : Bool := if isADV t.batches then vc.v2 else vc.v1
 
-/-- what `Read` returns for the emission of `t` -/
-def expected (t : Tree) : St :=
+/-- what `Read` returns for the emission of `t` (the Reader's state after the last record; the tail of `Read`
+changes nothing) -/
+def expected (t : Tree) (vc : Bits) : St :=
   { header := some t.header,
     control := if isADV t.batches then none else some t.control,
     advControl := if isADV t.batches then some t.control else none,
@@ -373,79 +360,70 @@ def expected (t : Tree) : St :=
     iatBatches := t.iatBatches,
     cur := none,
     iat := none,
-    errs := if controlValid t then [] else [.recInvalid] }
+    errs := if controlValid t vc then [] else [.recInvalid] }
 
-/-- the Reader's state after the last record of the emission of `t` (before the tail of `Read`) -/
-def afterRun (t : Tree) : St :=
-  { header := some t.header,
-    control := if isADV t.batches then none else some t.control,
-    advControl := if isADV t.batches then some t.control else none,
-    batches := t.batches,
-    iatBatches := t.iatBatches,
-    cur := none,
-    iat := none,
-    errs := if controlValid t then [] else [.recInvalid] }
+/-- the input of the round trip: every record validates, except that the file control's outcome `vc` is left open;
+`fill` are the (irrelevant) outcomes attached to the filler records, one per filler -/
+def emitted (t : Tree) (vc : Bits) (fill : List Bits) : List (Rec × Bits) :=
+  allOK (body t) ++ [(t.control, vc)] ++ (List.replicate fill.length Rec.filler).zip fill
 
-theorem run_emit (t : Tree) (ht : WFTree t) (n : Nat) :
-    run init (emit t ++ List.replicate n .filler) = afterRun t := by
+theorem run_body (t : Tree) (ht : WFTree t) :
+    run init (allOK (body t)) = ⟨some t.header, none, none, t.batches, t.iatBatches, none, none, []⟩ := by
   obtain ⟨hid, hh⟩ := ht.header
-  obtain ⟨ok, okAdv, cid, hc⟩ := ht.control
-  unfold emit
-  simp only [run, List.foldl_cons, List.foldl_append, List.cons_append]
-  have h0 : step init t.header = ⟨some t.header, none, none, [], [], none, none, []⟩ := by
-    rw [hh]; simp [step, init]
-  rw [h0]
-  have h1 := run_batches_cur (some t.header) none none [] [] [] t.batches ht.batches
-  simp only [run] at h1
-  rw [h1]
+  unfold body
+  have e1 : allOK (t.header :: (t.batches.flatMap emitBatch ++ t.iatBatches.flatMap emitBatch)) =
+      [(t.header, Bits.all)] ++ allOK (t.batches.flatMap emitBatch) ++ allOK (t.iatBatches.flatMap emitBatch) := by
+    simp [allOK]
+  rw [e1, run_append, run_append]
+  have h0 : run init [(t.header, Bits.all)] = ⟨some t.header, none, none, [], [], none, none, []⟩ := by
+    rw [hh]; simp [run, step, init, Bits.all]
+  rw [h0, run_batches_cur (some t.header) none none [] [] [] t.batches ht.batches]
   have h2 := run_batches_iat (some t.header) none none ([] ++ t.batches) [] [] t.iatBatches ht.iatBatches
-  simp only [run] at h2
-  rw [h2]
-  have h3 := run_fillers
-  simp only [run] at h3
-  simp only [List.nil_append, List.foldl_nil]
-  rw [hc]
-  cases hadv : isADV t.batches <;> cases ok <;> cases okAdv <;>
-    simp [step, hadv, h3, afterRun, controlValid, hc, St.err]
+  simpa using h2
 
-theorem finish_afterRun (t : Tree) : finish false false (afterRun t) = expected t := by
-  cases hadv : isADV t.batches <;> simp [finish, afterRun, expected, hadv]
+theorem run_emit (t : Tree) (ht : WFTree t) (vc : Bits) (fill : List Bits) :
+    run init (emitted t vc fill) = expected t vc := by
+  obtain ⟨cid, hc⟩ := ht.control
+  unfold emitted
+  rw [run_append, run_append, run_body t ht, run_fillers _ fill]
+  rw [hc]
+  cases hadv : isADV t.batches <;> cases h1 : vc.v1 <;> cases h2 : vc.v2 <;>
+    simp [run, step, hadv, expected, controlValid, hc, St.err, h1, h2]
+
+theorem finish_expected (t : Tree) (vc : Bits) : finish false false (expected t vc) = expected t vc := by
+  cases hadv : isADV t.batches <;> simp [finish, expected, hadv]
 
 /-- **reading what the Writer emits** (any number of trailing filler records) rebuilds the same tree, and reports
 an error only if the file control record itself does not validate -/
-theorem read_emit (t : Tree) (ht : WFTree t) (n : Nat) :
-    read (emit t ++ List.replicate n .filler) = expected t := by
+theorem read_emit (t : Tree) (ht : WFTree t) (vc : Bits) (fill : List Bits) :
+    read (emitted t vc fill) = expected t vc := by
   unfold read
-  rw [run_emit t ht n, finish_afterRun]
+  rw [run_emit t ht vc fill, finish_expected]
 
 theorem finish_errs (a b : Bool) (s : St) : ∃ l, (finish a b s).errs = s.errs ++ l := by
   unfold finish
   cases s.cur <;> simp only [St.err] <;> (repeat' split) <;> simp
 
 /-- a second file control record (what a filler record cut after its first column looks like) is refused -/
-theorem read_extra_control (t : Tree) (ht : WFTree t) (n : Nat) (a b : Bool) (i : Nat) :
-    (read (emit t ++ List.replicate n .filler ++ [.fc a b i])).errs ≠ [] := by
+theorem read_extra_control (t : Tree) (ht : WFTree t) (vc : Bits) (fill : List Bits) (i : Nat) (v : Bits) :
+    (read (emitted t vc fill ++ [(.fc i, v)])).errs ≠ [] := by
   unfold read
-  have hr : run init (emit t ++ List.replicate n .filler ++ [.fc a b i]) = step (afterRun t) (.fc a b i) := by
-    have := run_emit t ht n
-    simp only [run, List.foldl_append, List.foldl_cons, List.foldl_nil] at this ⊢
-    rw [this]
-  rw [hr]
-  obtain ⟨l, hl⟩ := finish_errs false false (step (afterRun t) (.fc a b i))
+  rw [run_append, run_emit t ht vc fill]
+  obtain ⟨l, hl⟩ := finish_errs false false (run (expected t vc) [(.fc i, v)])
   rw [hl]
-  have : (step (afterRun t) (.fc a b i)).errs ≠ [] := by
-    cases hadv : isADV t.batches <;> simp [step, afterRun, hadv, St.err]
+  have : (run (expected t vc) [(.fc i, v)]).errs ≠ [] := by
+    cases hadv : isADV t.batches <;> simp [run, step, expected, hadv, St.err]
   intro h
   exact this (List.append_eq_nil_iff.1 h).1
 
 /-! ## no file control record, no file -/
 
 def Rec.isFC : Rec → Bool
-  | .fc _ _ _ => true
+  | .fc _ => true
   | _ => false
 
 theorem closePending_controls {s s1 : St} (h : closePending s = .ok s1) :
-    s1.control = s.control ∧ s1.advControl = s.advControl := by
+    s1.control = s.control ∧ s1.advControl = s.advControl ∧ s1.errs = s.errs := by
   unfold closePending at h
   split at h
   · cases h; simp
@@ -453,36 +431,37 @@ theorem closePending_controls {s s1 : St} (h : closePending s = .ok s1) :
     · cases h
     · cases h; simp
 
-theorem step_controls (s : St) (r : Rec) (hr : r.isFC = false) :
-    (step s r).control = s.control ∧ (step s r).advControl = s.advControl := by
+theorem step_controls (s : St) (r : Rec) (v : Bits) (hr : r.isFC = false) :
+    (step s r v).control = s.control ∧ (step s r v).advControl = s.advControl := by
   cases r with
-  | fc a b c => simp [Rec.isFC] at hr
-  | fh ok id => simp only [step, St.err]; (repeat' split) <;> simp_all
-  | bh kind ok newOK id =>
+  | fc a => simp [Rec.isFC] at hr
+  | fh id => simp only [step, St.err]; (repeat' split) <;> simp_all
+  | bh kind id =>
     simp only [step, St.err]
     split
     · simp
     · rename_i s1 h1
       have := closePending_controls h1
       (repeat' split) <;> simp_all
-  | ed ind okStd okAdv okIat id => simp only [step, St.err]; (repeat' split) <;> simp_all
-  | ad stdSlot iatSlot okStd okAdv okIat id => simp only [step, St.err]; (repeat' split) <;> simp_all
-  | bc ok okAdv batchOK id => simp only [step, St.err]; (repeat' split) <;> simp_all
+  | ed ind id => simp only [step, St.err]; (repeat' split) <;> simp_all
+  | ad stdSlot iatSlot id => simp only [step, St.err]; (repeat' split) <;> simp_all
+  | bc id => simp only [step, St.err]; (repeat' split) <;> simp_all
   | filler => simp [step]
   | unknown id => simp [step, St.err]
 
-theorem run_controls (s : St) (rs : List Rec) (hrs : ∀ r ∈ rs, r.isFC = false) :
+theorem run_controls (s : St) (rs : List (Rec × Bits)) (hrs : ∀ r ∈ rs, r.1.isFC = false) :
     (run s rs).control = s.control ∧ (run s rs).advControl = s.advControl := by
   induction rs generalizing s with
   | nil => simp [run]
   | cons r rs ih =>
-    have h1 := step_controls s r (hrs r (by simp))
-    have h2 := ih (step s r) (fun r' hr' => hrs r' (by simp [hr']))
+    have h1 := step_controls s r.1 r.2 (hrs r (by simp))
+    have h2 := ih (step s r.1 r.2) (fun r' hr' => hrs r' (by simp [hr']))
     simp only [run, List.foldl_cons] at h2 ⊢
     exact ⟨h2.1.trans h1.1, h2.2.trans h1.2⟩
 
-/-- without a file control record the Reader reports `ErrFileControl`, whatever else the text holds -/
-theorem read_without_control (rs : List Rec) (hrs : ∀ r ∈ rs, r.isFC = false) :
+/-- without a file control record the Reader reports `ErrFileControl`, whatever else the text holds and whatever
+validates -/
+theorem read_without_control (rs : List (Rec × Bits)) (hrs : ∀ r ∈ rs, r.1.isFC = false) :
     Err.missingControl ∈ (read rs).errs := by
   have hc := run_controls init rs hrs
   unfold read finish
@@ -520,11 +499,6 @@ theorem emitBatch_notFC (b : TBatch) (hb : WFBatch b) : ∀ r ∈ emitBatch b, r
       rw [hcc] at this
       cases r <;> simp_all [ControlOK, Rec.isFC]
 
-/-- the records before the file control, as the Writer emits them -/
-def body (t : Tree) : List Rec := t.header :: (t.batches.flatMap emitBatch ++ t.iatBatches.flatMap emitBatch)
-
-theorem emit_eq_body (t : Tree) : emit t = body t ++ [t.control] := by simp [emit, body]
-
 theorem body_notFC (t : Tree) (ht : WFTree t) : ∀ r ∈ body t, r.isFC = false := by
   intro r hr
   unfold body at hr
@@ -535,13 +509,256 @@ theorem body_notFC (t : Tree) (ht : WFTree t) : ∀ r ∈ body t, r.isFC = false
   · exact emitBatch_notFC b (ht.iatBatches b hb).2 r hrb
 
 /-- **a transfer cut short before the file control record** — at a record boundary or inside a record (`tail`: whatever
-the cut record looks like, as long as it is not a file control record) — is rejected -/
-theorem read_truncated_body (t : Tree) (ht : WFTree t) (j : Nat) (tail : List Rec) (htail : ∀ r ∈ tail, r.isFC = false) :
-    Err.missingControl ∈ (read ((body t).take j ++ tail)).errs := by
+the cut record looks like and however it validates, as long as it is not a file control record) — is rejected -/
+theorem read_truncated_body (t : Tree) (ht : WFTree t) (j : Nat) (vs : List Bits) (tail : List (Rec × Bits))
+    (htail : ∀ r ∈ tail, r.1.isFC = false) :
+    Err.missingControl ∈ (read (((body t).take j).zip vs ++ tail)).errs := by
   apply read_without_control
   intro r hr
   rcases List.mem_append.1 hr with h | h
-  · exact body_notFC t ht r (List.mem_of_mem_take h)
+  · have := (List.of_mem_zip h).1
+    exact body_notFC t ht r.1 (List.mem_of_mem_take this)
   · exact htail r h
+
+/-! ## acceptance only grows with the validation outcomes (C15 at the level of the Reader) -/
+
+def Bits.le (v w : Bits) : Prop := (v.v1 = true → w.v1 = true) ∧ (v.v2 = true → w.v2 = true) ∧
+  (v.v3 = true → w.v3 = true) ∧ (v.b = true → w.b = true)
+
+theorem step_errs (s : St) (r : Rec) (v : Bits) : ∃ l, (step s r v).errs = s.errs ++ l := by
+  cases r with
+  | fh id => simp only [step, St.err]; (repeat' split) <;> simp
+  | bh kind id =>
+    simp only [step, St.err]
+    split
+    · simp
+    · rename_i s1 h1
+      have := (closePending_controls h1).2.2
+      (repeat' split) <;> simp [this]
+  | ed ind id => simp only [step, St.err]; (repeat' split) <;> simp
+  | ad stdSlot iatSlot id => simp only [step, St.err]; (repeat' split) <;> simp
+  | bc id => simp only [step, St.err]; (repeat' split) <;> simp
+  | fc id => simp only [step, St.err]; (repeat' split) <;> simp
+  | filler => exact ⟨[], by simp [step]⟩
+  | unknown id => simp [step, St.err]
+
+theorem addendaInto_mono (b : TBatch) (slot : Option Slot) (ok ok' : Bool) (r : Rec) (b' : TBatch)
+    (hle : ok = true → ok' = true) (h : addendaInto b slot ok r = .ok b') : addendaInto b slot ok' r = .ok b' := by
+  unfold addendaInto at h ⊢
+  cases hl : b.entries.getLast? with
+  | none => simp [hl] at h
+  | some e =>
+    simp only [hl] at h ⊢
+    cases hi : e.ind with
+    | false => simp [hi] at h
+    | true =>
+      simp only [hi] at h ⊢
+      cases slot with
+      | none => simpa using h
+      | some sl =>
+        cases hok : ok with
+        | false => simp [hok] at h
+        | true => simp [hok] at h; simp [hle hok, h]
+
+theorem snoc_ne (l : List Err) (e : Err) : l ++ [e] ≠ l := by
+  intro h
+  have := congrArg List.length h
+  simp at this
+
+/-- a step that raised no error takes the same branch when more validations succeed -/
+theorem step_mono (s : St) (r : Rec) (v w : Bits) (hle : Bits.le v w) (hno : (step s r v).errs = s.errs) :
+    step s r w = step s r v := by
+  obtain ⟨l1, l2, l3, l4⟩ := hle
+  cases r with
+  | fh id =>
+    simp only [step, St.err] at hno ⊢
+    split
+    · rfl
+    · rename_i hh
+      simp only [hh] at hno
+      cases h1 : v.v1 with
+      | true => simp [l1 h1]
+      | false => simp [h1] at hno
+  | bh kind id =>
+    simp only [step, St.err] at hno ⊢
+    split
+    · rfl
+    · rename_i s1 hs1
+      simp only [hs1] at hno
+      have hs1e : s1.errs = s.errs := (closePending_controls hs1).2.2
+      by_cases hk : (kind == BKind.iat) = true
+      · simp only [hk, if_true] at hno ⊢
+        cases h3 : v.v3 with
+        | true => simp [l3 h3]
+        | false => simp [h3, hs1e] at hno
+      · simp only [hk, if_false, Bool.false_eq_true] at hno ⊢
+        cases h1 : v.v1 with
+        | false => simp [h1, hs1e] at hno
+        | true =>
+          cases h2 : v.v2 with
+          | false => simp [h1, h2, hs1e] at hno
+          | true => simp [l1 h1, l2 h2]
+  | ed ind id =>
+    simp only [step, St.err] at hno ⊢
+    split
+    · rename_i ib hib
+      simp only [hib] at hno
+      cases h3 : v.v3 with
+      | true => simp [l3 h3]
+      | false => simp [h3] at hno
+    · rename_i hib
+      simp only [hib] at hno
+      split
+      · rfl
+      · rename_i b hb
+        simp only [hb] at hno
+        by_cases hk : (b.kind == BKind.adv) = true
+        · simp only [hk, if_true] at hno ⊢
+          cases h2 : v.v2 with
+          | true => simp [l2 h2]
+          | false => simp [h2] at hno
+        · simp only [hk, if_false, Bool.false_eq_true] at hno ⊢
+          cases h1 : v.v1 with
+          | true => simp [l1 h1]
+          | false => simp [h1] at hno
+  | ad stdSlot iatSlot id =>
+    simp only [step, St.err] at hno ⊢
+    split
+    · rename_i b hb
+      simp only [hb] at hno
+      by_cases hk : (b.kind == BKind.adv) = true
+      · simp only [hk, if_true] at hno ⊢
+        cases hres : addendaInto b (some advSlot) v.v2 (Rec.ad stdSlot iatSlot id) with
+        | ok b' => rw [addendaInto_mono b _ v.v2 w.v2 _ b' l2 hres]
+        | error e => simp [hres] at hno
+      · simp only [hk, if_false, Bool.false_eq_true] at hno ⊢
+        cases hres : addendaInto b stdSlot v.v1 (Rec.ad stdSlot iatSlot id) with
+        | ok b' => rw [addendaInto_mono b _ v.v1 w.v1 _ b' l1 hres]
+        | error e => simp [hres] at hno
+    · rename_i hb
+      simp only [hb] at hno
+      split
+      · rfl
+      · rename_i ib hib
+        simp only [hib] at hno
+        cases hres : addendaInto ib iatSlot v.v3 (Rec.ad stdSlot iatSlot id) with
+        | ok b' => rw [addendaInto_mono ib _ v.v3 w.v3 _ b' l3 hres]
+        | error e => simp [hres] at hno
+  | bc id =>
+    simp only [step, St.err] at hno ⊢
+    split
+    · rename_i b hb
+      simp only [hb] at hno
+      by_cases hk : (b.kind == BKind.adv) = true
+      · simp only [hk, if_true] at hno ⊢
+        cases h2 : v.v2 with
+        | false => simp [h2] at hno
+        | true =>
+          cases hb' : v.b with
+          | false => simp [h2, hb'] at hno
+          | true => simp [l2 h2, l4 hb']
+      · simp only [hk, if_false, Bool.false_eq_true] at hno ⊢
+        cases h1 : v.v1 with
+        | false => simp [h1] at hno
+        | true =>
+          cases hb' : v.b with
+          | false => simp [h1, hb'] at hno
+          | true => simp [l1 h1, l4 hb']
+    · rename_i hb
+      simp only [hb] at hno
+      split
+      · rfl
+      · rename_i ib hib
+        simp only [hib] at hno
+        split
+        · rfl
+        · rename_i hne
+          simp only [hne, if_false, Bool.false_eq_true] at hno
+          cases h1 : v.v1 with
+          | false => simp [h1] at hno
+          | true =>
+            cases hb' : v.b with
+            | false => simp [h1, hb'] at hno
+            | true => simp [l1 h1, l4 hb']
+  | fc id =>
+    simp only [step, St.err] at hno ⊢
+    split
+    · rename_i hadv
+      simp only [hadv, if_true] at hno
+      split
+      · rfl
+      · rename_i hnone
+        simp only [hnone] at hno
+        cases h2 : v.v2 with
+        | true => simp [l2 h2]
+        | false => simp [h2] at hno
+    · rename_i hadv
+      simp only [hadv, if_false, Bool.false_eq_true] at hno
+      split
+      · rfl
+      · rename_i hnone
+        simp only [hnone] at hno
+        cases h1 : v.v1 with
+        | true => simp [l1 h1]
+        | false => simp [h1] at hno
+  | filler => rfl
+  | unknown id => rfl
+
+theorem run_errs (s : St) (rs : List (Rec × Bits)) : ∃ l, (run s rs).errs = s.errs ++ l := by
+  induction rs generalizing s with
+  | nil => exact ⟨[], by simp [run]⟩
+  | cons r rs ih =>
+    obtain ⟨l1, h1⟩ := step_errs s r.1 r.2
+    obtain ⟨l2, h2⟩ := ih (step s r.1 r.2)
+    refine ⟨l1 ++ l2, ?_⟩
+    have : run s (r :: rs) = run (step s r.1 r.2) rs := rfl
+    rw [this, h2, h1, List.append_assoc]
+
+/-- a run without errors is the same run when more validations succeed -/
+theorem run_mono : ∀ (rs : List Rec) (s : St) (vs ws : List Bits), s.errs = [] → vs.length = rs.length →
+    ws.length = rs.length → (∀ i (h1 : i < vs.length) (h2 : i < ws.length), Bits.le vs[i] ws[i]) →
+    (run s (rs.zip vs)).errs = [] → run s (rs.zip ws) = run s (rs.zip vs)
+  | [], _, _, _, _, _, _, _, _ => by simp [run]
+  | r :: rs, s, vs, ws, hs, hv, hw, hle, herr => by
+    cases vs with
+    | nil => simp at hv
+    | cons v vs =>
+      cases ws with
+      | nil => simp at hw
+      | cons w ws =>
+        simp only [List.zip_cons_cons, run_cons] at herr ⊢
+        obtain ⟨l1, h1⟩ := step_errs s r v
+        obtain ⟨l2, h2⟩ := run_errs (step s r v) (rs.zip vs)
+        rw [h2, h1, hs] at herr
+        have hl1 : l1 = [] := by
+          have := List.append_eq_nil_iff.1 herr
+          exact (List.append_eq_nil_iff.1 this.1).2
+        have hno : (step s r v).errs = s.errs := by rw [h1, hl1]; simp
+        rw [step_mono s r v w (hle 0 (by simp) (by simp)) hno]
+        apply run_mono rs (step s r v) vs ws (by rw [hno, hs]) (by simpa using hv) (by simpa using hw)
+        · intro i h1' h2'
+          have := hle (i + 1) (by simp; omega) (by simp; omega)
+          simpa using this
+        · rw [h2, h1, hs]; exact herr
+
+theorem finish_mono (a b a' b' : Bool) (ha : a = true → a' = true) (hb : b = true → b' = true) (s : St)
+    (h : (finish a b s).errs = []) : (finish a' b' s).errs = [] := by
+  unfold finish at h ⊢
+  cases hcur : s.cur <;> simp only [hcur, St.err] at h ⊢ <;>
+    (cases a <;> cases b <;> cases a' <;> cases b' <;> simp_all <;> (repeat' split at h) <;> simp_all)
+
+/-- **reader_monotone**: a record sequence `Read` accepts is still accepted when more of the record- and batch-level
+validations succeed and when missing header / control become allowed — the Reader never turns an extra success into
+a rejection -/
+theorem read_mono (rs : List Rec) (vs ws : List Bits) (hv : vs.length = rs.length) (hw : ws.length = rs.length)
+    (hle : ∀ i (h1 : i < vs.length) (h2 : i < ws.length), Bits.le vs[i] ws[i])
+    (a b a' b' : Bool) (ha : a = true → a' = true) (hb : b = true → b' = true)
+    (h : (finish a b (run init (rs.zip vs))).errs = []) : (finish a' b' (run init (rs.zip ws))).errs = [] := by
+  obtain ⟨l, hl⟩ := finish_errs a b (run init (rs.zip vs))
+  have h' := h
+  rw [hl] at h'
+  have hrun : (run init (rs.zip vs)).errs = [] := (List.append_eq_nil_iff.1 h').1
+  rw [run_mono rs init vs ws rfl hv hw hle hrun]
+  exact finish_mono a b a' b' ha hb _ h
 
 end Ach.ReaderSM
